@@ -2,6 +2,7 @@ package bep44
 
 import (
 	"errors"
+	"sync"
 	"time"
 )
 
@@ -19,6 +20,8 @@ type Store interface {
 type Wrapper struct {
 	s   Store
 	exp time.Duration
+	// Makes the read-check-write sequences of Put and Get atomic with respect to each other.
+	mu sync.Mutex
 }
 
 func NewWrapper(s Store, exp time.Duration) *Wrapper {
@@ -29,6 +32,9 @@ func (w *Wrapper) Put(i *Item) error {
 	if err := Check(i); err != nil {
 		return err
 	}
+
+	w.mu.Lock()
+	defer w.mu.Unlock()
 
 	is, err := w.s.Get(i.Target())
 	if errors.Is(err, ErrItemNotFound) {
@@ -48,6 +54,9 @@ func (w *Wrapper) Put(i *Item) error {
 }
 
 func (w *Wrapper) Get(t Target) (*Item, error) {
+	w.mu.Lock()
+	defer w.mu.Unlock()
+
 	i, err := w.s.Get(t)
 	if err != nil {
 		return nil, err
